@@ -96,6 +96,19 @@ def encCase (c : Case) : Json :=
         ("parameter_location", match c.parameterLocation with | some p => .str p | none => .null),
         ("spec", jobj [("label_ok", .bool (caseLabelOk c)), ("comps_ok", .bool (compsOk c))])]
 
+def descOfToken (t : String) : Option Desc :=
+  match t with
+  | "greater-than-maximum" => some .greaterThanMaximum
+  | "smaller-than-minimum" => some .smallerThanMinimum
+  | "non-multiple" => some .nonMultiple
+  | "incorrect-type" => some .incorrectType
+  | "invalid-enum" => some .invalidEnum
+  | "smaller-than-min-length" => some .smallerThanMinLength
+  | "larger-than-max-length" => some .largerThanMaxLength
+  | "not-matching-pattern" => some .notMatchingPattern
+  | "not-matching-format" => some .notMatchingFormat
+  | _ => none
+
 def handle : Handler := fun op a => do
   match op with
   | "posnum" =>
@@ -134,7 +147,18 @@ def handle : Handler := fun op a => do
     let fuel := match a.getD "fuel" .null with | .num m 0 => m.toNat | _ => 64
     let schema := decOrd (a.getD "schema" .null)
     let vs ← asArr (a.getD "values" (.arr []))
-    return .arr (vs.map fun v => .bool (validF fuel env schema (decOrd v)))
+    match a.get? "descs" with
+    | some (.arr ds) =>
+      -- [[valid, violatesAsDescribed | null]] (the second only for top-level negative values of an object schema)
+      return .arr ((vs.zip ds).map fun (v, d) =>
+        let v := decOrd v
+        let dflag : Json := match d, schema with
+          | .str t, .obj kvs => (match descOfToken t with
+            | some dd => .bool (violatesAsDescribed env kvs ⟨v, .negative, dd, none, none⟩)
+            | none => .null)
+          | _, _ => .null
+        .arr [.bool (validF fuel env schema v), dflag])
+    | _ => return .arr (vs.map fun v => .bool (validF fuel env schema (decOrd v)))
   | "valid" =>
     let env ← decEnv (a.getD "env" (.obj []))
     let fuel := match a.getD "fuel" .null with | .num m 0 => m.toNat | _ => 64
